@@ -337,10 +337,6 @@ func vfMsRun(inst *vfMsInst, prop string, batch, j int, sc *vfMsScenario) *vfMsR
 				res.counters["ms_early_not_judged_(server_second_clock_behind)"]++
 			} else if el < t-vfMsTick {
 				sig := ""
-				if notice.rid == 2 && !sc.E2Sec {
-					// open known finding: only for new terms in milliseconds (new terms in seconds are re-filed: bf94317)
-					sig = "terms-change-keeps-old-timer-slot"
-				}
 				violate("expiry-early", sig, "EXPRIED under request r%d observed %v after that request was sent, its expiry is %v (first terms %v, sent %v earlier)", notice.rid, el.Round(time.Millisecond), t, term[1], (sent[notice.rid] - sent[1]).Round(time.Millisecond))
 			} else if !long {
 				res.noticed, res.lateness = true, el-t
